@@ -110,7 +110,7 @@ def eco_variants():
 def eco_plan(cc, cur, kw, fed=False):
     p = Z.Plan('eco_' + cc)
     if fed:
-        Z.reg_federation(p, cc, cur)
+        Z.reg_federation(p, cc, cur, place=fed if isinstance(fed, dict) else None)
     else:
         Z.economy(p, cc, cur, free_xr=False, **kw)
     return p
@@ -121,10 +121,12 @@ def embed_cases(tier):
     cases = []
     names = sorted(V)
     combos = [('A-sim', 'B-pc'), ('C-simex-caps', 'D-multi-mm'), ('B-pc', 'C-simex-caps'), ('A-sim', 'A-sim'), ('A-sim', 'FED'),
-              ('A-sim', 'B-pc', 'C-simex-caps'), ('FED', 'B-pc', 'D-multi-mm')]
+              ('A-sim', 'B-pc', 'C-simex-caps'), ('FED', 'B-pc', 'D-multi-mm'),
+              # a federation whose tax flow / deposit market live in a region (not next to the treasury), after / before an economy sharing its codes
+              ('B-pc', 'FED-REGIONPLACED'), ('FED-REGIONPLACED', 'B-pc'), ('FED', 'FED-REGIONPLACED')]
     if tier == 'thorough':
         import itertools
-        combos += [c for c in itertools.permutations(names + ['FED'], 2) if c not in combos]
+        combos += [c for c in itertools.permutations(names + ['FED', 'FED-REGIONPLACED'], 2) if c not in combos]
         combos += [c for c in itertools.combinations(names + ['FED'], 3) if c not in combos]
     for combo in combos:
         for ext in (False, True):
@@ -137,6 +139,8 @@ def make_eco(i, vname):
     cur = 'CUR%d' % i
     if vname == 'FED':
         return eco_plan(cc, cur, None, fed=True)
+    if vname == 'FED-REGIONPLACED':
+        return eco_plan(cc, cur, None, fed={'TF': 'N', 'DEP': 'S'})
     return eco_plan(cc, cur, eco_variants()[vname])
 
 
